@@ -31,6 +31,7 @@ class _SingleEraCalculator(_EraCalculator):
         self.__min_year = ymd_calculator._min_year
         self.__max_year = ymd_calculator._max_year
         self.__era = era
+        self._eras = (era,)
         return self
 
     def __validate_era(self, era: Era) -> None:
